@@ -8,6 +8,11 @@ output (ANSI, plain, ANSI section, quiet variants), and every `stream.write` cal
 The Lean model (`Clikit.Progress.run`) gets the same configuration, operations and clock readings
 and must produce the same writes, the same getters and the same exception classes.
 
+`start(max)` with an explicit argument (None, 0 = length unknown, 1, the current maximum, another one) on bars that
+already have a maximum - constructor or an earlier start - also in the middle of a history: the oracle keeps its OWN
+account of the maximum in force from the calls (it does not take the bar's word for it) and every frame must be truthful
+for that maximum.
+
 Setters in the MIDDLE of a run: besides the operations, a history may call the public configuration
 setters of the running bar (`SETTERS`: min_seconds_between_redraws, max_seconds_between_redraws,
 set_redraw_frequency, set_bar_width, the three character setters, set_format) between any two calls.  The
@@ -39,7 +44,10 @@ LEVEL_TEXT = ("Proved in Lean for every history of start/advance/set_progress/di
               "characters, bar width below 2^52, no line break / CR in format, characters and messages, no call raised) "
               "are decided by the model (hyps_decide; entry c16.run answers hyp) and compared on every case with the same "
               "conditions read off the real ProgressBar object after its setters ran; the *_dec corollaries take the "
-              "deciders, default_chars_ok proves them for the class defaults of the current source.  The model is tied to the code by regenerated tables (formats, defaults, "
+              "deciders, default_chars_ok proves them for the class defaults of the current source.  start_explicit_max / "
+              "start_explicit_frame / restart_unknown_ends_at_step: an explicit start(m) on ANY bar makes max(0, m) the maximum "
+              "(0 = length unknown: the bar then ends at the step reached), the guard `max is not None` of start() is read "
+              "from the source (start_guard_read).  The model is tied to the code by regenerated tables (formats, defaults, "
               "_TIME_FORMATS) and by exhaustive small-scope plus random differential runs comparing every stream write.")
 LEVEL_NOTE = ("Trusted: Lean kernel + propext/Quot.sound/Classical.choice, the hand-written model (sampled by the "
               "correspondence), the virtual clock and the terminal emulator of the harness. Formats with style tags "
@@ -55,7 +63,9 @@ REQUIRED_THEOREMS = ["Clikit.Props.C16." + n for n in (
     "throttle_current_config", "throttle_spacing_current_config", "min_interval_setter",
     "max_always_draws_current_config", "quiet_nothing_current_config", "frames_truthful_current_config",
     "bar_width_current_config", "bar_hyp_decides", "bar_width_current_config_dec", "setter_silent", "run_is_runC", "deciders_without_setters",
-    "displayed_line_count_recorded", "set_format_no_residue", "set_format_section_clears_standing_frame")]
+    "displayed_line_count_recorded", "set_format_no_residue", "set_format_section_clears_standing_frame",
+    "start_guard_read", "start_explicit_max", "start_none_keeps_max", "start_explicit_frame", "finish_without_maximum",
+    "restart_unknown_ends_at_step")]
 RULE = ("exhaustive small scope: every call sequence up to length 4 over a pool of 8 (quick) / 11 (thorough) public "
         "calls with clock advances (start, advance(1) after 0 / 1/64 / 1/4 s [/ 2 s], advance(3) after 1/16 s, "
         "set_progress(max), display, clear, finish, set_message), thorough also lengths 5-6 over a 6-call pool and "
@@ -64,7 +74,12 @@ RULE = ("exhaustive small scope: every call sequence up to length 4 over a pool 
         "min_seconds_between_redraws(2 s), min_seconds_between_redraws(1/64 s)} and up to length 3 over {start, "
         "advance(1) after 1/4 s, set_bar_width, set_format, set_redraw_frequency, max_seconds_between_redraws} x {ANSI, "
         "plain, section} x min interval 1/8 s x maximum {0, 3}; in half of the random histories about every sixth call "
-        "is one of the eight public setters; random: "
+        "is one of the eight public setters; re-starts with an explicit maximum: every sequence of length 2-3 (thorough: 4) "
+        "over {start(), start(0), start(1), start(current maximum), start(5), advance(1) after 1/4 s, set_progress(max), "
+        "finish} x {ANSI, plain, section} on bars constructed with maximum 3, 10 and (throttled) 0 - the oracle follows the "
+        "maximum the CALLER gave (constructor, every explicit start(m): max(0, m), 0 = length unknown; a step beyond it "
+        "moves it along; finish() without maximum ends at the step reached) and judges the bar's maximum and every frame "
+        "against it; random: "
         "histories up to length 60 over maxima {0,1,3,10,50,200}, bar widths 1..40, default formats at the four "
         "verbosities, custom tag-free formats (also multi-line, unknown placeholders, width specs), messages of "
         "varying length, clock advances {0, 1/64, 1/16, 1/4, 2 s} x ANSI/plain/section/plain-section x quiet; a "
@@ -74,13 +89,16 @@ TRUSTED_BASE = [
     "Lean 4.33 kernel; axioms propext, Classical.choice, Quot.sound only (audited per theorem on every run)",
     "lean/Clikit/Model/Progress.lean: hand-written model of progress_bar.py, utils/time.py and the single-section "
     "write path of section_output.py; fidelity = the correspondence runs (every stream write compared)",
-    "tools/genparts/c16.py: ProgressBar.formats, defaults and _TIME_FORMATS read with ast from the current source",
+    "tools/genparts/c16.py: ProgressBar.formats, defaults, _TIME_FORMATS, the guards of finish() and start() read with ast "
+    "from the current source",
     "harness/props/c16.py: virtual clock (1/64 s ticks, binary-fraction thresholds: every float comparison of the "
     "code is exact), recording stream, terminal emulator, frame regexes",
     "pastel is the identity on tag-free text (formats, messages and bar characters are generated without '<' and "
     "backslash; checked implicitly by the byte comparison)",
 ]
 ASSUMPTIONS = [
+    "the maximum in force is the one the caller gave last (constructor, start(m) with m not None: max(0, m)); 0 means "
+    "length unknown; a step beyond a positive maximum moves the maximum to that step (what the class documents by doing it)",
     "setters called in the middle of a run take effect from the next call on; min_seconds_between_redraws(x) with x <= 0 "
     "is ignored by the API (the interval in force stays); a set_format() that changes the NUMBER OF LINES of the format "
     "while a frame stands is judged like every other redraw (D39, repaired: the terminal must show exactly the new frame)",
@@ -212,6 +230,21 @@ def _setter_cases(tier):
                            _product_cases(configs, _other_setter_pool, range(2, 4 if tier == "quick" else 5)))
 
 
+def _restart_pool(mx):
+    """`start(max)` with an explicit argument on a bar that already has a maximum (constructor or an earlier start):
+    no argument, 0 (= length unknown), 1, the current maximum, another one"""
+    top = mx if mx else 3
+    return [_op("start"), _op("start", 0), _op("start", 1), _op("start", top), _op("start", 5),
+            _op("advance", 1, 16), _op("set_progress", top, 0), _op("finish")]
+
+
+def _restart_cases(tier):
+    """re-starts with an explicit maximum, also in the middle of a history: every sequence up to length 3 (thorough: 4)
+    over the restart pool, bars constructed with maximum 0 / 3 / 10"""
+    configs = [(kind, mt, mx) for kind in ("ansi", "plain", "section") for mt, mx in ((0, 3), (0, 10), (8, 0))]
+    return _product_cases(configs, _restart_pool, range(2, 4 if tier == "quick" else 5))
+
+
 def _long_exhaustive_cases():
     """thorough only: lengths 7 and 8 over the 4-call pool, throttling configurations"""
     return _product_cases([c for c in CONFIGS if c[1] == 8], _tiny_pool, (7, 8))
@@ -294,6 +327,8 @@ def generate(tier, rng):
     for c in _exhaustive_cases(tier):
         yield c
     for c in _setter_cases(tier):
+        yield c
+    for c in _restart_cases(tier):
         yield c
     n = 10000 if tier == "quick" else 40000
     for _ in range(n):
@@ -671,6 +706,10 @@ def oracle(case, obs):
         return "bytes written before the first call"
     view = dict(case)      # what is configured at the moment of each call (setters may be called in the middle of a run)
     hyp = obs.get("hyp")
+    # the maximum in force, as the CALLER gave it: the constructor's, replaced by every start(m) with an explicit m
+    # (0 or less = no maximum, length unknown); a step beyond a maximum moves the maximum along, and finish() on a bar
+    # without maximum makes the step reached the maximum.  Every frame is judged against THIS maximum as well.
+    want_max = max(0, case["max"])
     for i, (op, ev) in enumerate(zip(case["ops"], obs["events"])):
         name = op["op"]
         where = "call %d %s(%s)" % (i, name, "" if op["arg"] is None else repr(op["arg"]))
@@ -729,7 +768,18 @@ def oracle(case, obs):
         if ev["err"] is not None:
             if data:
                 last_write_t = ev["t"]
+            want_max = ev["max"]
             continue
+        if name == "start" and op["arg"] is not None:
+            want_max = max(0, op["arg"])
+        elif name in ("advance", "set_progress") and want_max > 0 and ev["progress"] > want_max:
+            want_max = ev["progress"]
+        elif name == "finish" and want_max == 0:
+            want_max = ev["progress"]
+        if ev["max"] != want_max:
+            given = "the maximum given by the caller is %d" % want_max if want_max else "the caller gave no maximum (length unknown)"
+            shown = (" and the frame shows %s" % "/".join(last["cur"][:1] + last["max"][:1])) if drew and last and last["max"] else ""
+            return "%s: the bar works with maximum %d%s, %s" % (where, ev["max"], shown, given)
         # throttling: a redraw caused by advancing to a step other than the maximum comes at least the
         # minimum interval after the previous write
         if drew and name in ("advance", "set_progress") and ev["progress"] != ev["max"] and last_write_t is not None:
@@ -861,6 +911,12 @@ def neighbours(case):
                 c = dict(case)
                 c["ops"] = ops[:i] + [dict(o, dt=dt)] + ops[i + 1:]
                 yield c
+        if o["op"] == "start":
+            for a in (None, 0, 1, case["max"]):
+                if a != o["arg"]:
+                    c = dict(case)
+                    c["ops"] = ops[:i] + [dict(o, arg=a)] + ops[i + 1:]
+                    yield c
         if isinstance(o["arg"], int):
             for d in (-1, 1):
                 if o["op"] in SETTERS and o["arg"] + d < 1:
